@@ -22,66 +22,66 @@ def P(pid, streams, oracle, rule, assumptions, examples=0, extra_modules=()):
 
 # (stream, cases quick, cases thorough); oracle = (id, budget quick, budget thorough)
 PROPS = {
-    'C01': P('C01', [('codepair', 10000, 150000), ('lines', 600, 9000), ('inlineops', 7500, 100000), ('link', 10000, 100000), ('entity', 10000, 100000), ('url', 10000, 150000), ('smap', 300, 4500)], ('C01', 30000, 600000),
+    'C01': P('C01', [('codepair', 10000, 80000), ('lines', 600, 4800), ('inlineops', 7500, 60000), ('link', 10000, 80000), ('entity', 10000, 80000), ('url', 10000, 80000), ('smap', 300, 2400)], ('C01', 30000, 240000),
              "oracle: parse->render->xrender under catch_unwind on grammar/spec/mutated/adversarial/malformed documents x configuration sample (subsets, orders, max_nesting); non-trivial = contains a markdown-significant character; distinct by hash of (cfg, source)",
              ["whole-pipeline totality theorem is _partial: mechanism theorems + rule-level correspondence + oracle cover the composition",
               "hang = wall time beyond 2 s + 1 ms/byte; stack exhaustion is covered by C02"]),
-    'C02': P('C02', [('nest', 4500, 60000)], ('C02', 3000, 20000),
+    'C02': P('C02', [('nest', 4500, 36000)], ('C02', 3000, 20000),
              "oracle: 16 nesting families x sizes up to the budget x max_nesting in {0,1,3,10,100}; recursion gauge (hook) and tree depth compared with 4*max_nesting+16; non-trivial = size >= 150",
              ["actual stack exhaustion is a runtime fact; the model bounds frames and depth, the oracle observes the gauge on a 3 GiB-stack thread"]),
-    'C03': P('C03', [('render', 15000, 200000)], ('C03', 20000, 300000),
+    'C03': P('C03', [('render', 15000, 120000)], ('C03', 20000, 160000),
              "render stream: escape_html inputs and random event scripts (hostile payloads, empty strings, NUL, LF-terminated texts before cr) replayed into the REAL HTMLRenderer in both modes; oracle: recogniser of the safe output language on rendered hostile/generated documents under html-free configurations; non-trivial = payload with & < or quote / script with cr and >= 3 events",
              ["tag names and attribute names come from &'static str literals of the shipped node kinds (EventOK hypothesis); the per-kind render model is validated by the recorded-event oracle of C19"]),
-    'C04': P('C04', [('link', 15000, 150000)], ('C04', 30000, 500000),
+    'C04': P('C04', [('link', 15000, 120000)], ('C04', 30000, 240000),
              "oracle: scheme spellings (case, named/decimal/hex references, escapes, embedded controls, percent escapes) x 8 syntactic positions; every Link/Image/Autolink url and every rendered href/src is fed to a WHATWG-style scheme extractor",
              ["browser behaviour is modelled by WHATWG URL pre-processing (strip C0/space at the ends, drop TAB/LF/CR) + ASCII-case-insensitive scheme"]),
-    'C05': P('C05', [('inlineops', 10000, 150000)], ('C05', 30000, 500000),
+    'C05': P('C05', [('inlineops', 10000, 80000)], ('C05', 30000, 240000),
              "oracle: RangesOk on every parsed tree (root covers input, boundaries, nesting, sibling order, text/markup fidelity) for all generators x configurations with the paragraph rule; non-trivial = tree with more than 3 nodes",
              ["whole-tree induction is _partial (Layer 3); covered by the oracle"]),
-    'C06': P('C06', [], ('C06', 15000, 300000),
+    'C06': P('C06', [], ('C06', 15000, 120000),
              "oracle: both metamorphic relations on all tab-free spec inputs (with and without html) and generated/mutated tab-free documents; tree equality modulo the computed shift for the quote relation",
              ["list relation: every line (blank ones included) indented by the marker width, D contains a non-blank line"]),
-    'C07': P('C07', [('pstate', 10000, 150000)], ('C07', 7500, 150000),
+    'C07': P('C07', [('pstate', 10000, 80000)], ('C07', 7500, 60000),
              "oracle: histories of 2-9 documents (reference definitions then uses, unclosed code spans, emphasis lower-bound triggers, fences) on one parser, each compared with a fresh parser (tree with ranges, HTML, XHTML)",
              ["per-document state is local to one parse call: static scan of interior-mutable items"]),
-    'C08': P('C08', [('ruler', 10000, 150000), ('pstate', 10000, 150000)], ('C08', 15000, 300000),
+    'C08': P('C08', [('ruler', 10000, 80000), ('pstate', 10000, 80000)], ('C08', 15000, 120000),
              "ruler stream: add/alias/before/after/remove/contains/iter histories on one REAL Ruler (with its cache) vs the cache-free model; oracle: add/remove/parse histories over 8 rule kinds (custom block, inline with markers x ( e-acute +, core, shipped escape and hr) compared with the same history without intermediate parses",
              []),
-    'C09': P('C09', [('ruler', 20000, 300000)], ('C09', 20000, 400000),
+    'C09': P('C09', [('ruler', 20000, 160000), ('pstate', 10000, 80000)], ('C09', 20000, 160000),
              "ruler stream: random rule sets (0-9 rules, aliases, absent marks, self references, duplicates, all priorities) -> order or panic class of the REAL Ruler vs Lean compile; oracle: independent greedy specification in Rust; non-trivial = at least two constraints",
              ["marks are modelled as Nat; HashMap/HashSet as lists observed through membership only"]),
-    'C10': P('C10', [('lines', 900, 12000)], ('C10', 20000, 400000),
+    'C10': P('C10', [('lines', 900, 7200)], ('C10', 20000, 160000),
              "oracle: LF->CRLF, LF->CR and final-newline relations on the real crate for all generators x configuration sample incl. sourcepos",
              []),
-    'C11': P('C11', [('codepair', 10000, 150000), ('lines', 600, 9000)], ('C11', 20000, 400000),
+    'C11': P('C11', [('codepair', 10000, 80000), ('lines', 600, 4800)], ('C11', 20000, 160000),
              "oracle: payloads (fence look-alikes, entity/escape-like text, tabs, NUL, blank lines) x fenced/indented/span x nesting depth 0-3; node content and rendered <code> compared with the payload",
              ["span payloads: continuation lines do not start a block construct (block structure wins in CommonMark)"]),
-    'C12': P('C12', [('entity', 20000, 200000)], ('C12', 12500, 150000),
+    'C12': P('C12', [('entity', 20000, 160000)], ('C12', 12500, 100000),
              "oracle: named references of the entities table (all in thorough), numeric references over boundary classes + random sample in 3 spellings, 32 escapes x 5 contexts; round trip on random printable strings",
              []),
-    'C13': P('C13', [('refs', 12500, 200000)], ('C13', 20000, 400000),
+    'C13': P('C13', [('refs', 12500, 100000)], ('C13', 20000, 160000),
              "oracle: k definitions (case/whitespace/case-fold variants, in quotes and items, before/after the use) x 4 use forms; expected target = first definition of the same base label",
              ["U+0131 dotless i is additionally identified with i/I by lower-then-upper normalisation (documented, not tested as a non-match)"]),
-    'C14': P('C14', [('inlineops', 10000, 150000)], ('C14', 25000, 500000),
+    'C14': P('C14', [('inlineops', 10000, 80000)], ('C14', 25000, 200000),
              "oracle: WF on every parsed tree for all generators x configurations containing the paragraph rule",
              []),
-    'C15': P('C15', [('smap', 450, 7500)], ('C15', 1500, 25000),
+    'C15': P('C15', [('smap', 450, 3600)], ('C15', 1500, 12000),
              "smap stream: texts with lines around the checkpoint spacing (14-18, 30-34, 47-49, 64-70 chars), multi-byte characters, CR/LF/CRLF runs; EVERY offset 0..len+2 of each text; oracle: the two counting functions in Rust",
              []),
-    'C16': P('C16', [('codepair', 15000, 200000)], ('C16', 12500, 250000),
+    'C16': P('C16', [('codepair', 15000, 120000)], ('C16', 12500, 100000),
              "oracle: dual-run look-ahead probe (hook) over all generators x configurations (+ custom rules), HTML with probe on = HTML with probe off, custom block rule in both look-ahead styles after every predecessor kind",
              []),
-    'C17': P('C17', [('url', 20000, 300000)], ('C17', 20000, 400000),
+    'C17': P('C17', [('url', 20000, 160000)], ('C17', 20000, 160000),
              "url stream: byte strings biased to '%' near the end, hex/non-hex after '%', bytes >= 0x80, 8 safe-set families, both modes; non-trivial = contains a byte >= 0x80 or a '%' within the last three bytes; distinct by hash of the request line",
              ["bytes are modelled as Nat < 256 (hypothesis `Bytes bs`)",
               "AsciiSet is modelled as its 128-bit constant; `has` is only consulted for bytes < 128 (short-circuit in the Rust)"]),
-    'C18': P('C18', [('alt', 12500, 200000)], ('C18', 20000, 400000),
+    'C18': P('C18', [('alt', 12500, 100000)], ('C18', 20000, 160000),
              "oracle: ![D](x) for generated inline descriptions; alt attribute vs plain-text display of the image node's own children",
              []),
-    'C19': P('C19', [('render', 15000, 200000)], ('C19', 15000, 300000),
+    'C19': P('C19', [('render', 15000, 120000)], ('C19', 15000, 120000),
              "render stream as C03; oracle: independent event-recording Renderer over real trees of all generators x configurations: render twice, tree unchanged, built-in output = reference serialisation of recorded events (HTML and XHTML), length difference = 2 x void elements",
              []),
-    'C20': P('C20', [('eset', 15000, 200000), ('tree', 10000, 150000)], ('C20', 15000, 300000),
+    'C20': P('C20', [('eset', 15000, 120000), ('tree', 10000, 80000)], ('C20', 15000, 120000),
              "eset stream: op sequences (1-60 ops) over eight Rust types incl. zero-sized and same-layout types on the REAL ErasedSet vs model; tree stream: walk / walk_mut with a mutating callback on random trees; oracle: HashMap<TypeId,_> reference and manual stack pre-order",
              []),
 }
